@@ -18,8 +18,8 @@ ESC_SYMBOLS = ['"', "'", "\\", "\n", ",", "é", "a", "\U0001F600"]
 
 
 def _cases(tier):
-    ns = range(0, 18) if tier != "quick" else (0, 1, 2, 9, 10, 14, 15, 16)
-    ms = range(0, 17) if tier != "quick" else (0, 1, 2, 10, 15, 16)
+    ns = range(0, 18)
+    ms = range(0, 17) if tier != "quick" else (0, 1, 2, 3, 5, 9, 10, 11, 14, 15, 16)
     for n in ns:
         for lc in LEN_CLASSES:
             if n == 0 and lc != "short":
